@@ -857,12 +857,13 @@ func c11Checkpoint(e *sim.Env, net *gen.Net, nw *simnet.Net, tree *gen.Tree, dom
 	cs := &chainSUT{net: net, db: disk, disk: disk, store: rs, cm: chain.NewManager(rs, tipState)}
 	// its only peer is the honest node it is given (no discovery): what it
 	// relays after syncing then goes nowhere else
-	node := newNetNodeAt(e, net, nw, 301, "10.7.0.2", true, nil, cs, append(nodeOpts(), syncer.WithPeerDiscoveryInterval(3*time.Hour))...)
+	node := newNetNodeAt(e, net, nw, 301, "10.7.0.2", true, nil, cs, append(nodeOpts(), syncer.WithPeerDiscoveryInterval(3*time.Hour), syncer.WithSyncInterval(time.Duration(e.Range(100, 300))*time.Millisecond))...)
 	defer node.close()
 	node.ps.AddPeer(honest[0].addr)
 	ctx, cancel := context.WithTimeout(context.Background(), 5*time.Second)
 	node.sy.Connect(ctx, honest[0].addr)
 	cancel()
+	redialWhenAlone(e, node, honest[0].addr)
 	deadline := time.Now().Add(20 * time.Minute)
 	for time.Now().Before(deadline) {
 		time.Sleep(3 * time.Second)
